@@ -221,3 +221,11 @@ Proof.
   cbv zeta. split; [exact queue_order_fair|]. split; [exact rev_sched_fair|].
   split; [vm_compute; reflexivity|]. split; [vm_compute; reflexivity|]. split; [vm_compute; reflexivity|]. vm_compute. discriminate.
 Qed.
+
+(** Faults are outside the theorems above, and the returned error cannot be schedule independent:
+    ParallelStabilize keeps the FIRST error of a block (parallelBatch), so with two failing
+    functions in one block the error depends on the order *)
+Example C04_error_depends_on_order :
+  blk_err (run_block 0 ex_fault_plan ex_mid_s [2; 3]%nat) = Some (EUser 2%nat) /\
+  blk_err (run_block 0 ex_fault_plan ex_mid_s [3; 2]%nat) = Some (EUser 3%nat).
+Proof. split; vm_compute; reflexivity. Qed.
